@@ -3,6 +3,7 @@ package main
 import (
 	"go/ast"
 	"go/token"
+	"go/types"
 
 	"golang.org/x/tools/go/cfg"
 )
@@ -250,4 +251,85 @@ func (c *Ctx) IterationBypass(f *FuncInfo, loop ast.Stmt, isCheck func(ast.Node)
 	}
 	walk(entry)
 	return bypass, checks, true
+}
+
+// FuncBypass decides whether the body of f can reach a return statement for which okReturn is
+// false (a "success" exit) without executing a node for which isCheck holds.
+func (c *Ctx) FuncBypass(f *FuncInfo, isCheck func(ast.Node) bool, failure func(*ast.ReturnStmt) bool) (bypass, decided bool) {
+	if f.Decl.Body == nil {
+		return false, false
+	}
+	bc := c.cfgOf(f, f.Decl.Body)
+	if len(bc.g.Blocks) == 0 {
+		return false, false
+	}
+	has := func(b *cfg.Block) (check bool, success bool) {
+		for _, n := range b.Nodes {
+			if check {
+				break
+			}
+			if rs, ok := n.(*ast.ReturnStmt); ok && !failure(rs) {
+				// a check inside the returned expression itself counts as executed.
+				inRet := false
+				ast.Inspect(rs, func(x ast.Node) bool {
+					if x != nil && isCheck(x) {
+						inRet = true
+					}
+					return !inRet
+				})
+				if !inRet {
+					success = true
+				}
+				return
+			}
+			ast.Inspect(n, func(x ast.Node) bool {
+				if x == nil || check {
+					return false
+				}
+				if _, isLit := x.(*ast.FuncLit); isLit {
+					return false
+				}
+				if isCheck(x) {
+					check = true
+				}
+				return !check
+			})
+		}
+		return
+	}
+	seen := map[*cfg.Block]bool{}
+	var walk func(b *cfg.Block)
+	walk = func(b *cfg.Block) {
+		if seen[b] || bypass {
+			return
+		}
+		seen[b] = true
+		chk, succ := has(b)
+		if succ {
+			bypass = true
+			return
+		}
+		if chk {
+			return
+		}
+		if len(b.Succs) == 0 && b.Live {
+			// fell off the end without a return statement in this block (implicit return).
+			if len(b.Nodes) == 0 || !isReturn(b.Nodes[len(b.Nodes)-1]) {
+				if f.Obj.Type().(*types.Signature).Results().Len() == 0 {
+					bypass = true
+				}
+			}
+			return
+		}
+		for _, s := range b.Succs {
+			walk(s)
+		}
+	}
+	walk(bc.g.Blocks[0])
+	return bypass, true
+}
+
+func isReturn(n ast.Node) bool {
+	_, ok := n.(*ast.ReturnStmt)
+	return ok
 }
